@@ -65,16 +65,77 @@ func genTarget(r *hx.Rand, names []string) RId {
 	return RId{Type: ty, Id: hx.Pick(r, idPool)}
 }
 
+// unregistered type names a linkage may mention (never defined in any world)
+var ghostTypes = []string{"ghost", "", "phantom", "Ghost"}
+
+// genRun draws a linkage list with structure: runs of one type (registered, unregistered, empty
+// name), alternations, duplicates of the same identifier. Such lists exercise per-member type lookup
+// in getResources (each member must be looked up on its own: unknown types are left out).
+func genRun(r *hx.Rand, names []string) []RId {
+	ids := []RId{}
+	pick := func(pool []string) string { return hx.Pick(r, pool) }
+	id := func() string { return hx.Pick(r, idPool) }
+	switch r.Intn(8) {
+	case 0: // a run of one unregistered type
+		ty := pick(ghostTypes)
+		for n := r.Range(2, 4); n > 0; n-- {
+			ids = append(ids, RId{ty, id()})
+		}
+	case 1: // unregistered run, then registered members
+		ty := pick(ghostTypes)
+		ids = append(ids, RId{ty, id()}, RId{ty, id()}, RId{pick(names), id()}, RId{pick(names), id()})
+	case 2: // registered, then an unregistered run
+		ty := pick(ghostTypes)
+		ids = append(ids, RId{pick(names), id()}, RId{ty, id()}, RId{ty, id()})
+	case 3: // alternation registered / unregistered
+		a, g := pick(names), pick(ghostTypes)
+		for n := r.Range(3, 6); n > 0; n-- {
+			if n%2 == 0 {
+				ids = append(ids, RId{a, id()})
+			} else {
+				ids = append(ids, RId{g, id()})
+			}
+		}
+	case 4: // duplicates of the same identifier
+		x := RId{pick(append(append([]string{}, names...), ghostTypes...)), id()}
+		ids = append(ids, x, x)
+		if r.Bool() {
+			ids = append(ids, RId{pick(names), id()}, x)
+		}
+	case 5: // a run of one registered type
+		a := pick(names)
+		for n := r.Range(2, 5); n > 0; n-- {
+			ids = append(ids, RId{a, id()})
+		}
+	case 6: // two different unregistered types around each other
+		g1, g2 := pick(ghostTypes), pick(ghostTypes)
+		ids = append(ids, RId{g1, id()}, RId{g2, id()}, RId{g1, id()}, RId{g1, id()})
+	default: // the empty type name first / alone
+		ids = append(ids, RId{"", id()})
+		if r.Bool() {
+			ids = append(ids, RId{pick(names), id()}, RId{"", id()}, RId{"", id()})
+		}
+	}
+	return ids
+}
+
 func genLink(r *hx.Rand, many bool, names []string, clean bool, errStatus string) LinkOut {
 	x := r.Intn(100)
 	if !clean && x < 12 {
 		return LinkOut{Kind: "err", Status: errStatus}
 	}
-	if x < 27 {
+	if x < 24 {
 		return LinkOut{Kind: "nil"}
 	}
 	if !many {
-		return LinkOut{Kind: "id", Ids: []RId{genTarget(r, names)}}
+		t := genTarget(r, names)
+		if r.Intn(100) < 8 {
+			t.Type = hx.Pick(r, ghostTypes)
+		}
+		return LinkOut{Kind: "id", Ids: []RId{t}}
+	}
+	if r.Intn(100) < 55 {
+		return LinkOut{Kind: "ids", Ids: genRun(r, names)}
 	}
 	o := LinkOut{Kind: "ids", Ids: []RId{}}
 	n := r.Intn(4)
